@@ -117,8 +117,8 @@ PROPS = {
     ),
     'C19': dict(
         title='functools.partial', proj='proj_full', oracle='c19',
-        quick=[S_('bind'), S_('partial'), S_('maskp'), S_('partialfwd', count=480)],
-        thorough=[S_('bind'), S_('partial'), S_('maskp'), S_('partialfwd', count=8000)],
+        quick=[S_('bind'), S_('partial'), S_('maskp'), S_('partialfwd', count=480), S_('programs', count=16000, routes=('param',), ops=('pauto',))],
+        thorough=[S_('bind'), S_('partial'), S_('maskp'), S_('partialfwd', count=8000), S_('programs', count=160000, routes=('param',), ops=('pauto',))],
         runtime_part='functools.partial.__call__ (the oracle really calls the partial objects)',
         level_text='signature(partial) is _mask in partial mode: exactness w.r.t. "f accepts the bound plus the call arguments" is a theorem about the Lean '
                    'model; correspondence on real functools.partial objects of real functions (parameters, provenance, depths), plain and automatic retrieval.',
@@ -198,8 +198,8 @@ PROPS = {
     ),
     'C07': dict(
         title='retrieval is total and only narrows', proj='proj_full', oracle='c07',
-        quick=[S_('visitor_corpus', limit=4000), S_('visitor_adv', nc=4), S_('retrieve')],
-        thorough=[S_('visitor_corpus'), S_('visitor_adv', nc=4), S_('retrieve')],
+        quick=[S_('visitor_corpus', limit=4000), S_('visitor_adv', nc=4), S_('retrieve'), S_('programs', count=16000, routes=('self', 'param'), ops=('pauto',))],
+        thorough=[S_('visitor_corpus'), S_('visitor_adv', nc=4), S_('retrieve'), S_('programs', count=160000, routes=('self', 'param'), ops=('pauto',))],
         runtime_part='what inspect, getsource, ast.parse, getattr and Sphinx raise on real objects (validated over the corpus, not proved)',
         level_text='Totality of the AST walker on arbitrary trees (theorem visitor_total: the deferred-call queue always drains) and of the fallback chain of the model; the real retrieval is run over every '
                    'star-taking function and a seeded sample (thorough: all) of the ~2*10^4 callables of the importable standard library and installed packages plus adversarial sources, comparing the '
